@@ -73,6 +73,12 @@ func Zone(name string) (opt *time.Location, effective *time.Location) {
 	case "fixed+0545":
 		l := time.FixedZone("fixed+0545", 5*3600+45*60)
 		return l, l
+	case "sameName+9": // two different zones that share one name
+		l := time.FixedZone("X", 9*3600)
+		return l, l
+	case "sameName-5":
+		l := time.FixedZone("X", -5*3600)
+		return l, l
 	case "fixed-0330":
 		l := time.FixedZone("fixed-0330", -(3*3600 + 30*60))
 		return l, l
